@@ -1199,3 +1199,49 @@ fn binop_to_float_cmp(op: &ast::BinOp) -> Option<FloatCmp> {
 
 #[cfg(feature = "verif-hooks")]
 pub use drops::verif_needs_drop;
+
+/// Verification hook (C05): the offset `Lowerer::location` computes for
+/// `VariantField(variant, 0)` of every variant of the enum type `ty`
+/// (`None` for a variant without fields or with an uninhabited field;
+/// the outer `None` if `ty` is not an enum).
+#[cfg(feature = "verif-hooks")]
+pub fn verif_c05_variant_offsets(
+    ctx: &mut LowerCtx<'_>,
+    item: &mir::Item,
+    ty: TyRef,
+) -> Option<Vec<Option<usize>>> {
+    let Ty::Enum(variants) = ctx.type_info.ty_pool.get(ty).clone() else {
+        return None;
+    };
+    // any variable will do: only the offset of the location is read
+    let var = item.variables.first()?.0.clone();
+    let mut lowerer = Lowerer {
+        ctx,
+        tmp_idx: item.tmp_idx,
+        function_scope: item.scope,
+        force_reference_return: false,
+        return_type: ty,
+        blocks: Vec::new(),
+        variables: Vec::new(),
+    };
+    Some(
+        variants
+            .iter()
+            .map(|(name, fields)| {
+                let field_ty = *fields.first()?;
+                let place = mir::Place {
+                    var: var.clone(),
+                    root_ty: ty,
+                    projection: vec![mir::Projection::VariantField(
+                        name.clone(),
+                        0,
+                    )],
+                };
+                match lowerer.location(place, field_ty)? {
+                    Location::Pointer { offset, .. } => Some(offset),
+                    Location::Var(_) => None,
+                }
+            })
+            .collect(),
+    )
+}
